@@ -1229,12 +1229,33 @@ def pattern_or_i32_const_reg(context, tree, c0):
     return d
 
 
-@isa.pattern("reg", "SHRU8(reg, reg)", size=2)
-@isa.pattern("reg", "SHRU16(reg, reg)", size=2)
+def zero_extend(context, reg, bits):
+    """Zero extend the low bits of reg into a new register"""
+    d = context.new_reg(RiscvRegister)
+    context.emit(Slli(d, reg, 32 - bits))
+    context.emit(Srli(d, d, 32 - bits))
+    return d
+
+
 @isa.pattern("reg", "SHRU32(reg, reg)", size=2)
 def pattern_shr_u32(context, tree, c0, c1):
     d = context.new_reg(RiscvRegister)
     context.emit(Srl(d, c0, c1))
+    return d
+
+
+@isa.pattern("reg", "SHRU8(reg, reg)", size=6)
+def pattern_shr_u8(context, tree, c0, c1):
+    # The upper bits of a register holding an 8 bit value are unspecified
+    d = zero_extend(context, c0, 8)
+    context.emit(Srl(d, d, c1))
+    return d
+
+
+@isa.pattern("reg", "SHRU16(reg, reg)", size=6)
+def pattern_shr_u16(context, tree, c0, c1):
+    d = zero_extend(context, c0, 16)
+    context.emit(Srl(d, d, c1))
     return d
 
 
@@ -1328,11 +1349,19 @@ def pattern_div_i32(context, tree, c0, c1):
     return d
 
 
-@isa.pattern("reg", "DIVU16(reg, reg)", size=10)
 @isa.pattern("reg", "DIVU32(reg, reg)", size=10)
 def pattern_div_u32(context, tree, c0, c1):
     d = context.new_reg(RiscvRegister)
     context.emit(Divu(d, c0, c1))
+    return d
+
+
+@isa.pattern("reg", "DIVU16(reg, reg)", size=18)
+def pattern_div_u16(context, tree, c0, c1):
+    a = zero_extend(context, c0, 16)
+    b = zero_extend(context, c1, 16)
+    d = context.new_reg(RiscvRegister)
+    context.emit(Divu(d, a, b))
     return d
 
 
@@ -1343,11 +1372,19 @@ def pattern_rem_i32(context, tree, c0, c1):
     return d
 
 
-@isa.pattern("reg", "REMU16(reg, reg)", size=10)
 @isa.pattern("reg", "REMU32(reg, reg)", size=10)
 def pattern_rem_u32(context, tree, c0, c1):
     d = context.new_reg(RiscvRegister)
     context.emit(Remu(d, c0, c1))
+    return d
+
+
+@isa.pattern("reg", "REMU16(reg, reg)", size=18)
+def pattern_rem_u16(context, tree, c0, c1):
+    a = zero_extend(context, c0, 16)
+    b = zero_extend(context, c1, 16)
+    d = context.new_reg(RiscvRegister)
+    context.emit(Remu(d, a, b))
     return d
 
 
